@@ -19,8 +19,8 @@ from .core import (
 )
 from .execu import CONTRACTS, CallArgs, Contract, Executor, Norm, Raise, Ret
 
-Z3_TIMEOUT_MS = int(os.environ.get("PYVC_Z3_TIMEOUT_MS", "20000"))
-CVC5_TIMEOUT_MS = int(os.environ.get("PYVC_CVC5_TIMEOUT_MS", "30000"))
+Z3_TIMEOUT_MS = int(os.environ.get("PYVC_Z3_TIMEOUT_MS", "16000"))
+CVC5_TIMEOUT_MS = int(os.environ.get("PYVC_CVC5_TIMEOUT_MS", "8000"))
 
 
 @dataclass
@@ -239,7 +239,7 @@ def _solve_one(args):
     try:
         for backend, cmd in (
             ("cvc5-1.0", ["/usr/bin/cvc5", "--strings-exp", f"--tlimit={CVC5_TIMEOUT_MS}", fn]),
-            ("z3-4.8", ["/usr/bin/z3", f"-T:{Z3_TIMEOUT_MS // 1000}", fn]),
+            ("z3-4.8", ["/usr/bin/z3", f"-T:{max(2, Z3_TIMEOUT_MS // 4000)}", fn]),
         ):
             try:
                 out = subprocess.run(cmd, capture_output=True, text=True, timeout=CVC5_TIMEOUT_MS / 1000 + 5).stdout
